@@ -773,12 +773,54 @@ class Inliner:
         self.drop_absorbed()
         self.fold_getattr()
         self.unroll_literal_loops()
+        self.fold_getattr()
+        self.forward_loop_iterables()
         self.scalarise_namedtuples()
         self.desugar_globals_dict()
         self.lower_conditional_arguments()
         self.split_tuple_assigns()
         ast.fix_missing_locations(self.tree)
         return self.tree
+
+    def forward_loop_iterables(self):
+        """``v = E`` directly followed by ``for t in v:`` where these are
+        the only reads of ``v`` in the function: the loop iterates over ``E``
+        (``E`` is evaluated at the same point either way).  Only applied in
+        functions that were rewritten by this normaliser."""
+        touched = {n.split(':')[0].split('.')[-1] for n in self.notes
+                   if ':' in n}
+        for f in ast.walk(self.tree):
+            if not (isinstance(f, ast.FunctionDef) and f.name in touched):
+                continue
+            loads = {}
+            for x in ast.walk(f):
+                if isinstance(x, ast.Name) and isinstance(x.ctx, ast.Load):
+                    loads[x.id] = loads.get(x.id, 0) + 1
+            pairs = {}
+            for x in ast.walk(f):
+                for fld in ('body', 'orelse', 'finalbody'):
+                    blk = getattr(x, fld, None)
+                    if not (isinstance(blk, list) and blk and isinstance(
+                            blk[0], ast.stmt)):
+                        continue
+                    for i in range(len(blk) - 1):
+                        a, b = blk[i], blk[i + 1]
+                        if isinstance(a, ast.Assign) and len(
+                                a.targets) == 1 and isinstance(
+                                    a.targets[0], ast.Name) and isinstance(
+                                        b, ast.For) and isinstance(
+                                            b.iter, ast.Name) and \
+                                b.iter.id == a.targets[0].id:
+                            pairs.setdefault(a.targets[0].id, []).append(
+                                (blk, a, b))
+            for v, ps in pairs.items():
+                if loads.get(v, 0) != len(ps):
+                    continue
+                for (blk, a, b) in ps:
+                    b.iter = a.value
+                    blk.remove(a)
+                self.notes.append(f'{f.name}: iterable "{v}" forwarded into '
+                                  'its loop')
 
     def lower_conditional_arguments(self):
         """``r.m(A if T else B)`` as a statement of its own becomes
@@ -1144,12 +1186,23 @@ class Inliner:
             return False
 
         def own_jumps(body):
-            for st in body:
-                for x in ast.walk(st):
+            # break/continue that belong to THIS loop (those inside a
+            # nested loop belong to that one)
+            def rec(nodes):
+                for x in nodes:
                     if isinstance(x, (ast.Break, ast.Continue)):
-                        # inside a nested loop it belongs to that loop
                         return True
-            return False
+                    if isinstance(x, (ast.For, ast.While)):
+                        # only its else-branch still belongs to us
+                        if rec(x.orelse):
+                            return True
+                        continue
+                    if isinstance(x, (ast.FunctionDef, ast.Lambda)):
+                        continue
+                    if rec(list(ast.iter_child_nodes(x))):
+                        return True
+                return False
+            return rec(body)
 
         # module-level tables bound once (and never rebound by a function)
         mod_consts, mod_counts = {}, {}
